@@ -67,7 +67,60 @@ def c15_jobs(tier):
     return [sim("c15-grid", "c15", require_counters=["blocking_pull_timed_against_limit", "blocked_pull_woken_by_publish", "stream_limit_checked"])]
 
 
+def conc(name, profile, **kw):
+    params = {"profile": profile}
+    params.update(kw.pop("params", {}))
+    return sim(name, "conc", params=params, **kw)
+
+
+def c01_jobs(tier):
+    jobs = [conc("c01-conc", "c01", require_counters=["obligations", "redeliveries", "mailbox_full_observations"]),
+            sim("c01-seq-cycles", "c02", params={"len": 3}, require_nontrivial=False)]
+    if tier == "thorough":
+        jobs.append(conc("c01-conc-h2", "c01", transport="h2"))
+    return jobs
+
+
+def c03_jobs(tier):
+    jobs = [conc("c03-conc", "c03", require_counters=["subscriptions_with_2plus_consumers", "redeliveries"]),
+            conc("c03-conc-c01mix", "c01", params={"n": 1500 if tier == "quick" else 20000})]
+    if tier == "thorough":
+        jobs.append(conc("c03-conc-h2", "c03", transport="h2"))
+    return jobs
+
+
+def c08_jobs(tier):
+    jobs = [conc("c08-conc", "c08", require_counters=["overlapping_publish_pairs", "first_deliveries", "mailbox_full_observations"])]
+    if tier == "thorough":
+        jobs.append(conc("c08-conc-h2", "c08", transport="h2"))
+    return jobs
+
+
+def c09_jobs(tier):
+    return [sim("c09-payloads", "c09", require_counters=["messages_delivered_3_times", "topic_recreations"]),
+            conc("c09-conc-identity", "c01", params={"n": 1000 if tier == "quick" else 10000}, require_counters=["identity_deliveries_checked"]),
+            sim("c09-push", "c14", params={"maxlen": 1 if tier == "quick" else 2}, require_counters=["post_attributes_equal"], require_nontrivial=False)]
+
+
+CONC_NOTE = SIM_NOTE + " Concurrent histories: oracles are sound necessary conditions over intervals (happens-before from return.seq < call.seq, leases as virtual-time intervals); ambiguous attributions are skipped and counted."
+
 PROPERTIES = {
+    "C01": {"level": "exploration", "jobs": c01_jobs, "engine": "dvsim",
+            "technique": "runtime monitoring of concurrent multi-client histories: conservation / at-least-once accounting with an exact end-of-episode drain on a virtual clock",
+            "level_text": "Thousands of seeded concurrent episodes (publishers, unary/blocking/streaming consumers, ackers, nackers, deadline modifiers, subscription and topic churn, bursts larger than the actor mailboxes) run against the real services with seeded scheduler yields; every published message carries a unique tag. After the clients finish, all leases are left to expire and every live subscription is drained, so for every (publish, message, subscription) obligation the checker knows whether the message was delivered, whether it kept coming back while unacknowledged, and whether anything spurious (wrong topic, published before the subscription existed) was delivered; hook stats must read 0/0. Schedules are sampled, hence exploration.",
+            "level_note": CONC_NOTE, "assumptions": ["names are not reused inside a data-plane episode, so a name is an incarnation"]},
+    "C03": {"level": "exploration", "jobs": c03_jobs, "engine": "dvsim",
+            "technique": "runtime monitoring of concurrent consumer histories: lease-interval exclusivity, ack-id uniqueness and per-response duplicate checks on a virtual clock",
+            "level_text": "3-8 competing consumers of mixed kinds share one subscription with publishers, ackers, nackers and deadline modifiers while virtual time advances; the lease checker computes for every pair of consecutive deliveries of a message the earliest instant the first lease could have ended (deadline, every possibly applied modification, every nack call) and flags a second hand-out before it, any ack-id string seen twice on a subscription, and any response listing a message twice. Hand-out instants are exact on the paused clock. Schedules are sampled.",
+            "level_note": CONC_NOTE, "assumptions": []},
+    "C08": {"level": "exploration", "jobs": c08_jobs, "engine": "dvsim",
+            "technique": "runtime monitoring of concurrent publisher/consumer histories: order checker over Publish responses and first deliveries",
+            "level_text": "2-6 concurrent publishers (batches 1-8) race on one topic whose 2-3 subscriptions are read by consumers with small batch limits while bursts of pulls saturate the subscription mailboxes; the order checker requires one id per message in request order, ids increasing within a response and across happens-before-ordered publishes, and on every subscription first deliveries in id order (within a response by index, across responses whenever one is definitely earlier on the virtual clock), requests contiguous. Redeliveries are exempt. Schedules are sampled.",
+            "level_note": CONC_NOTE, "assumptions": ["no consumer is cancelled in this profile, so every hand-out is observed and 'first delivery' is exact"]},
+    "C09": {"level": "exploration", "jobs": c09_jobs, "engine": "dvsim + scripted push endpoint",
+            "technique": "runtime monitoring: byte-exact identity checker over every delivery path (Pull, StreamingPull, push POST) across payload/attribute classes, redeliveries and topic re-creation",
+            "level_text": "Payload classes from empty to 1 MiB and attribute classes from none to 50 keys / non-ASCII / 4 KiB values are published, delivered at least three times each (first, after nack, after expiry) on two subscriptions through Pull and StreamingPull and POSTed to the scripted endpoint; every delivery is compared with the published record (data, attributes, the id Publish returned, constant publish_time) and ids must be unique across topics and across delete/re-create of a topic name. Concurrent histories add the same identity rules under load. Inputs are sampled by class.",
+            "level_note": SIM_NOTE, "assumptions": ["id reuse after 2^32 messages or topics is out of reach"]},
     "C13": {"level": "exploration", "jobs": c13_jobs, "engine": "dvsim",
             "technique": "runtime monitoring against a creation-ordered reference list: complete pagination walks over a boundary grid and hostile page tokens, sequential episodes",
             "level_text": "For resource counts {0,1,2,19,20,21,999,1000,1001,1005}, all three List RPCs, three interleaved projects (one sharing a name prefix) and deletion/re-creation histories, every page size of the boundary grid is walked to the empty token and compared with the model list (each resource once, creation order, page <= effective size, nothing foreign); negative sizes must be INVALID_ARGUMENT; hostile tokens (issued tokens shifted and truncated, random base64 of 0-16 bytes, non-base64, offsets up to 2^64-1) must be INVALID_ARGUMENT or yield a contiguous in-order slice, never a panic or hang. The grid is enumerated completely; token strings are sampled.",
